@@ -217,6 +217,7 @@ func checkC05(c *core.Ctx) {
 	gen := &QGen{MaxDepth: 3}
 	runGrammarCheck(c, queryBind(), GrammarPlan{
 		PrinterKind: "query",
+		HandTexts:   nestedListQueryTexts,
 		DevNames:    map[string]bool{"EmptyDocument": true, "VarDirectivesNonConst": true},
 		Invs:        "Nesting ConstNoVar TypeOK",
 		MaxTok:      [2]int{6, 7}, Cover: [2]int{12, 16}, NDocs: [2]int{400, 6000},
@@ -259,4 +260,11 @@ func grammarReplay(c *core.Ctx, path string, gb *GrammarBind) int {
 	}
 	fmt.Printf("replay %s: text %q now behaves as specified\n", path, m.Text)
 	return 0
+}
+
+// values with lists nested at every position, after earlier lists of the same document
+var nestedListQueryTexts = []string{
+	`{ f(ids: [7, 8, 9], m: [[1, 2], [3, 4]]) g(m: [a, {k: [b]}, c]) }`,
+	`query($v: [[Int]] = [[1], [2, 3], []]) { f(a: [$v, [$v]], b: [[1], [[2], [3]]]) @d(x: [[0, 1], [2, 3]]) }`,
+	`{ a(x: [1]) b(x: [[2], [3]]) c(x: [[[4]], [[5], [6]]]) d(x: [{k: [7]}, {k: [[8], [9]]}]) e(x: [[], [[]], [[], []]]) }`,
 }
